@@ -93,8 +93,7 @@ def Int(name, lo=None, hi=None):
         v = int(ctx.model[name])
     else:
         a = lo if lo is not None else -ctx.box
-        b = hi if hi is not None else (a + ctx.box + 2)
-        b = min(b, a + ctx.box + 2)
+        b = hi if hi is not None else (a + ctx.box + 2)      # an explicit upper bound is used in full (e.g. seeds)
         v = ctx.rng.randint(a, b)
     ctx.drawn[name] = v
     return v
